@@ -380,15 +380,9 @@ impl SignatureContext<'_> {
                 }
             }
 
+            // the payload line follows `x-amz-content-sha256` whatever the method: a body on GET / HEAD is signed too
             let canonical_request = if is_stream {
                 let payload = sig_v4::Payload::MultipleChunks;
-                sig_v4::create_canonical_request(method, uri_path, query_strings, &headers, payload)
-            } else if matches!(*self.req_method, Method::GET | Method::HEAD) {
-                let payload = if matches!(amz_content_sha256, Some(AmzContentSha256::UnsignedPayload)) {
-                    sig_v4::Payload::Unsigned
-                } else {
-                    sig_v4::Payload::Empty
-                };
                 sig_v4::create_canonical_request(method, uri_path, query_strings, &headers, payload)
             } else if matches!(amz_content_sha256, Some(AmzContentSha256::UnsignedPayload)) {
                 sig_v4::create_canonical_request(method, uri_path, query_strings, &headers, sig_v4::Payload::Unsigned)
